@@ -238,7 +238,8 @@ class Layout:
 
     # ---- configuration as the specification sees it
     def abs_config(self):
-        return {"frames": [{"ver": 5, "neg": f.neg, "blen": f.ablen} for f in self.frames], "codec": self.codec,
+        return {"frames": [{"ver": 5, "neg": f.neg, "blen": f.ablen, "sid": f.stream if f.neg else 0} for f in self.frames],
+                "codec": self.codec,
                 "segs": [{"lo": a["lo"], "hi": a["hi"], "sc": a["sc"], "z": sg["z"]} for a, sg in zip(self.abs_segs, self.segs)],
                 "corrupt": {"seg": self.corrupt[0], "reg": self.corrupt[1]} if self.corrupt else {"seg": 0, "reg": "none"}}
 
